@@ -42,9 +42,11 @@ def _load(rel, modname):
 def keyboards():
     t = X.parse("lib_trainer/detection_rules/keyboard_walk.py")
     fn = X.find_func(t, "detect_keyboard_walk")
-    # order of `keyboards.append(_get_xxx_keyboard())`
+    # order of `keyboards.append(_get_xxx_keyboard())`: in detect_keyboard_walk itself, or (since the loop over the
+    # walks replaced the recursion) in its helper _detect_first_keyboard_walk
     order = []
-    for n in ast.walk(fn):
+    helpers = [n for n in t.body if isinstance(n, ast.FunctionDef) and n.name == "_detect_first_keyboard_walk"]
+    for n in [m for f in [fn] + helpers for m in ast.walk(f)]:
         if isinstance(n, ast.Call) and isinstance(n.func, ast.Attribute) and n.func.attr == "append" \
                 and isinstance(n.func.value, ast.Name) and n.func.value.id == "keyboards":
             a = n.args[0]
